@@ -28,6 +28,58 @@ def crc32_table():
     return {"entries": 256}, ""
 
 
+def utf8_skip_table():
+    """coq/Gen/Utf8Skip.v from stun/stun5389.c: utf8_skip_data[256] and the shape of stun_message_append_software (at most 128 characters,
+    whole UTF-8 sequences, the BYTE count ptr - software is what gets appended)."""
+    src = open(os.path.join(vlib.REPO, "stun/stun5389.c")).read()
+    m = re.search(r"static\s+const\s+char\s+utf8_skip_data\s*\[\s*256\s*\]\s*=\s*\{(.*?)\};", src, re.S)
+    if not m:
+        return None, "utf8_skip_data[256] not found in stun/stun5389.c"
+    vals = re.findall(r"\d+", m.group(1))
+    if len(vals) != 256:
+        return None, "utf8_skip_data[] has %d entries, expected 256" % len(vals)
+    body = re.search(r"StunMessageReturn\s+stun_message_append_software\s*\(.*?\n\}", src, re.S)
+    flat = re.sub(r"\s+", "", body.group(0)) if body else ""
+    shape = ["#define next_utf8_char(p) (char *)((p) + utf8_skip_data[*(const unsigned char *)(p)])"]
+    if re.sub(r"\s+", "", shape[0].replace(" ", "")) not in re.sub(r"\s+", "", src.replace("\\\n", "")):
+        return None, "next_utf8_char no longer has the modelled definition"
+    for st in ["if (software == NULL) software = PACKAGE_STRING;", "ptr = software; while (*ptr && len < 128) { ptr = next_utf8_char (ptr); len++; }",
+               "return stun_message_append_bytes (msg, STUN_ATTRIBUTE_SOFTWARE, software, ptr - software);"]:
+        if re.sub(r"\s+", "", st) not in flat:
+            return None, "stun_message_append_software no longer contains the modelled statement `%s`" % st
+    text = "(* GENERATED from stun/stun5389.c by lib/tabgen.py - do not edit *)\nFrom Coq Require Import ZArith List.\nImport ListNotations.\nLocal Open Scope Z_scope.\n"
+    text += "Definition utf8_skip_data : list nat := [\n " + ";\n ".join("; ".join(vals[i:i + 32]) for i in range(0, 256, 32)) + "]%nat.\n"
+    text += "Definition SOFTWARE_MAX_CHARS : nat := 128%nat.\n"
+    vlib.write_if_changed(os.path.join(vlib.COQ, "Gen", "Utf8Skip.v"), text)
+    return {"entries": 256}, ""
+
+
+def rfc4571_wake_shape():
+    """the statements of agent_consume_next_rfc4571_chunk (agent/agent.c) and component_source_prepare (agent/component.c) that
+    coq/Data/FramingModel.v next_frame / consume model for rfc4571_wakeup_needed, verbatim up to white space."""
+    src = open(os.path.join(vlib.REPO, "agent/agent.c")).read()
+    m = re.search(r"\nagent_consume_next_rfc4571_chunk\s*\(.*?\n\}\n", src, re.S)
+    if not m:
+        return None, "agent_consume_next_rfc4571_chunk not found in agent/agent.c"
+    flat = re.sub(r"\s+", "", m.group(0))
+    stmts = ["fully_consumed = bytes_copied == bytes_unconsumed || !agent->bytestream_tcp;",
+             "component->rfc4571_frame_offset += component->rfc4571_frame_size; component->rfc4571_frame_size = 0; component->rfc4571_consumed_size = 0;",
+             "headroom = nice_component_compute_rfc4571_headroom (component); if (headroom >= sizeof (guint16)) {",
+             "component->rfc4571_frame_size = sizeof (guint16) + ((guint) component->rfc4571_buffer[ component->rfc4571_frame_offset] << 8 | "
+             "component->rfc4571_buffer[component->rfc4571_frame_offset + 1]); have_whole_next_frame = headroom >= component->rfc4571_frame_size; "
+             "} else { have_whole_next_frame = FALSE; } component->rfc4571_wakeup_needed = have_whole_next_frame; } else { component->rfc4571_wakeup_needed = TRUE; }"]
+    for st in stmts:
+        if re.sub(r"\s+", "", st) not in flat:
+            return None, "agent_consume_next_rfc4571_chunk no longer contains the modelled statement `%s`" % st
+    comp = re.sub(r"\s+", "", open(os.path.join(vlib.REPO, "agent/component.c")).read())
+    if re.sub(r"\s+", "", "if (component->rfc4571_wakeup_needed) { component->rfc4571_wakeup_needed = FALSE; skip_poll = TRUE; goto done; }") not in comp:
+        return None, "component_source_prepare no longer reports ready (once) when rfc4571_wakeup_needed is set"
+    n = len(re.findall(r"rfc4571_wakeup_needed\s*=", src))
+    if n != 2:
+        return None, "rfc4571_wakeup_needed is assigned %d times in agent/agent.c, the model knows 2" % n
+    return {"statements": len(stmts) + 1}, ""
+
+
 def strerror_table():
     """coq/Gen/StunErrTab.v from stun_strerror() in stun/stunmessage.c: (code, phrase) list + default phrase."""
     import sys
